@@ -1130,6 +1130,7 @@ impl<W: Write> Exec<W> {
             "encode_list" => self.enclist_event(sid, i, step),
             "pubkey" => self.pubkey_event(sid, i, step),
             "decpub" => self.decpub_event(sid, i, step),
+            "verifyraw" => self.verifyraw_event(sid, i, step),
             "keygen" => self.keygen_event(sid, i, step),
             "decode_stream" => self.stream_event(sid, i, step),
             "decode_list" => self.list_event(sid, i, step),
@@ -1519,6 +1520,47 @@ impl<W: Write> Exec<W> {
         let sig = jbytes(&r["sig"]);
         let sm = if kt == "var" { keys::var_verify(&pkb, &probe, &sig) } else if sch == 'k' { indep::secp_sigmath_libsecp(&pkb, &probe, &sig) } else { indep::ed_sigmath(&pkb, &probe, &sig) };
         m.insert("sig_math".into(), json!(sm));
+        m.insert("panics".into(), Value::Array(panics));
+        self.emit(Value::Object(m));
+    }
+
+    /// EnrPublicKey::verify_v4 of every public-key type that can hold the named key, on an arbitrary (msg, sig)
+    fn verifyraw_event(&mut self, sid: &Value, i: usize, step: &Value) {
+        use enr::EnrKey;
+        let signer = get(step, "signer").as_str().expect("signer").to_string();
+        let msg = jbytes(get(step, "msg"));
+        // sig: {"valid":true} (signed by the independent signer) with optional tweak / len, or {"raw":[..]}
+        let sspec = get(step, "sig");
+        let mut sig = if let Some(r) = sspec.get("raw") { jbytes(r) } else { keys::indep_sign(&signer, get(sspec, "over").as_array().map(|_| jbytes(get(sspec, "over"))).as_deref().unwrap_or(&msg)).expect("signer") };
+        match get(sspec, "tweak").as_str().unwrap_or("none") {
+            "highs" => { let s2 = indep::n_minus(&sig[32..64]); sig.splice(32..64, s2); }
+            "zero_r" => sig[..32].iter_mut().for_each(|b| *b = 0),
+            "zero_s" => sig[32..64].iter_mut().for_each(|b| *b = 0),
+            "flip" => { let k = get(sspec, "bit").as_u64().unwrap_or(0) as usize % (sig.len().max(1) * 8); if !sig.is_empty() { sig[k / 8] ^= 1 << (k % 8); } }
+            _ => {}
+        }
+        if let Some(n) = sspec.get("len").and_then(|x| x.as_u64()) { sig.resize(n as usize, 0x11); }
+        let (sch, pkb) = keys::indep_pub(&signer).expect("signer");
+        let mut m = self.base("verifyraw", sid, i, step);
+        let mut panics = Vec::new();
+        let mut outs = serde_json::Map::new();
+        let kts: &[&str] = if sch == 'k' { &["k256", "libsecp", "comb"] } else { &["ed", "comb"] };
+        for kt in kts {
+            let r = with_kt!(*kt, K => {
+                let key = K::named(&signer).expect("signer for key type");
+                let pk = key.public();
+                guarded("verify_v4", &mut panics, || pk.verify_v4(&msg, &sig))
+            });
+            outs.insert(kt.to_string(), match r { Some(b) => json!([b]), None => json!([]) });
+        }
+        m.insert("signer".into(), json!(signer));
+        m.insert("scheme".into(), json!(if sch == 'k' { "secp" } else { "ed" }));
+        m.insert("msg".into(), bytes_json(&msg));
+        m.insert("sig".into(), bytes_json(&sig));
+        m.insert("outs".into(), Value::Object(outs));
+        let (sm, sm2) = if sch == 'k' { (indep::secp_sigmath_libsecp(&pkb, &msg, &sig), indep::secp_sigmath_k256(&pkb, &msg, &sig)) } else { let x = indep::ed_sigmath(&pkb, &msg, &sig); (x, x) };
+        m.insert("sm".into(), json!(sm));
+        m.insert("sm2".into(), json!(sm2));
         m.insert("panics".into(), Value::Array(panics));
         self.emit(Value::Object(m));
     }
